@@ -235,6 +235,10 @@ pub struct Built {
     pub last_stake: Option<(T, T)>,
     /// (user, paid amount, minted amount) when a user unstaked exactly what the last stake minted
     pub roundtrip: Option<(String, T, T)>,
+    /// operation inputs are fixed constants instead of fresh symbols (prefixes of generated sequences)
+    pub fixed_inputs: bool,
+    /// set when the history hit a listed finding whose consequences would only repeat themselves
+    pub poisoned: bool,
 }
 
 fn v(name: &str) -> Uint128 {
@@ -328,7 +332,7 @@ pub fn build(s: &Structure) -> Built {
     chain.w.supply.insert(lst.clone(), sn.l.clone());
     chain.w.created.push((who.contract.clone(), addr::SUBDENOM.to_string()));
     chain.trace.clear();
-    Built { chain, ghost, last_stake: None, roundtrip: None }
+    Built { chain, ghost, last_stake: None, roundtrip: None, fixed_inputs: false, poisoned: false }
 }
 
 pub fn refundable(sn: &Snap, denom: &str) -> Vec<T> {
